@@ -162,14 +162,21 @@ def _vstrat(vkind):
 
 @st.composite
 def _mask(draw, n, pattern):
+    """Zero pattern of a class: none / one / some (k of n nonzero, 2 <= k <= n-2 where possible) / allbut1 / all."""
     if pattern == "none" or n == 0:
         return [False] * n
     if pattern == "all":
         return [True] * n
-    if pattern == "one":
+    if pattern in ("one", "allbut1"):
         k = draw(st.integers(0, n - 1))
-        return [i == k for i in range(n)]
-    return draw(st.lists(st.booleans(), min_size=n, max_size=n))
+        return [(i == k) == (pattern == "one") for i in range(n)]
+    lo, hi = (2, n - 2) if n >= 4 else (1, max(1, n - 1))
+    k = draw(st.integers(lo, hi))
+    if k > n // 2:  # draw the complement: fewer elements to draw
+        off = set(draw(st.lists(st.integers(0, n - 1), min_size=n - k, max_size=n - k, unique=True)))
+        return [i not in off for i in range(n)]
+    on = set(draw(st.lists(st.integers(0, n - 1), min_size=k, max_size=k, unique=True)))
+    return [i in on for i in range(n)]
 
 
 def _store(draw, entries):
@@ -199,8 +206,8 @@ def _big_shape(draw, tier):
     return shape
 
 
-_PATTERNS_A = ["none", "one", "some", "some", "some", "some", "all"]
-_PATTERNS_B = ["none", "one", "some", "some", "some", "all", "same-as-a", "perturbed-a"]
+_PATTERNS_A = ["none", "one", "some", "some", "some", "some", "allbut1", "all"]
+_PATTERNS_B = ["none", "one", "some", "some", "some", "allbut1", "all", "same-as-a", "perturbed-a"]
 
 
 @st.composite
@@ -210,7 +217,8 @@ def _operand_a(draw, tier):
     vkind = draw(st.sampled_from(["set", "half", "float"]))
     vs = _vstrat(vkind)
     ma = draw(_mask(n, draw(st.sampled_from(_PATTERNS_A))))
-    va = [draw(vs) if m else 0.0 for m in ma]
+    vals = draw(st.lists(vs, min_size=n, max_size=n))
+    va = [v if m else 0.0 for m, v in zip(ma, vals)]
     return shape, n, vs, va
 
 
@@ -226,15 +234,9 @@ def _pair_sampled(draw, tier, permute_b=True):
                 mb[k] = not mb[k]
     else:
         mb = draw(_mask(n, pb))
-    vb = []
     same = draw(st.lists(st.integers(0, 2), min_size=n, max_size=n))
-    for k in range(n):
-        if not mb[k]:
-            vb.append(0.0)
-        elif va[k] != 0.0 and same[k] == 0:
-            vb.append(va[k])
-        else:
-            vb.append(draw(vs))
+    fresh = draw(st.lists(vs, min_size=n, max_size=n))
+    vb = [0.0 if not mb[k] else (va[k] if (va[k] != 0.0 and same[k] == 0) else fresh[k]) for k in range(n)]
     ea = [(subsF[k], va[k]) for k in range(n) if va[k] != 0.0]
     eb = [(subsF[k], vb[k]) for k in range(n) if vb[k] != 0.0]
     a = _store(draw, ea)
@@ -294,11 +296,11 @@ def _nb(case):
 
 
 def _ne_dense_float_subs(case):
-    """`S != T` builds one of its two subscript blocks as a float array: no position with S == 0 and T != 0, or no
-    stored entry of S that differs from T."""
+    """`S != T` builds exactly one of its two subscript blocks (S == 0 and T != 0; stored entry of S that differs
+    from T) as an empty float array while the other block is not empty."""
     shape = case["shape"]
     A, B = H.dense_of(shape, case["a"]), H.dense_of(shape, case["b"])
-    return not bool(np.any((A == 0) & (B != 0))) or not bool(np.any((A != 0) & (A != B)))
+    return bool(np.any((A == 0) & (B != 0))) != bool(np.any((A != 0) & (A != B)))
 
 
 PREDICATES = {
